@@ -565,7 +565,10 @@ def main_c28(run):
                 key = json.dumps({"kind": h["kind"], "kids": h["kids"], "calls": h["calls"]})
                 run.case(key)
                 if got[0] != want:
-                    raise MachineryError(f"spec says call on {o} is {want}, implementation {got[0]} for {key}")
+                    run.violation("history:" + key, f"after history {h['calls']} on graph kind={h['kind']} kids={h['kids']}, "
+                                  f"hy.repr of object {o} {got[0]}; HyReprState (and a fresh interpreter: {ref[o][0]}) say {want}",
+                                  {"history": h})
+                    continue
                 if got != ref[o]:
                     run.violation("history:" + key, f"after history {h['calls']} on graph kind={h['kind']} kids={h['kids']}, "
                                   f"hy.repr of object {o} gives {got[1]!r}, in a clean state {ref[o][1]!r}", {"history": h})
